@@ -25,6 +25,7 @@ class Harness:
         self.unwind = None
         self.stubs = []
         self.tier = "quick"
+        self.meta = {}
         self.checks = []      # vcheck names
         self.covers = []
 
@@ -37,7 +38,9 @@ def parse_harness_file(unit, text):
     """Return list[Harness] in file order."""
     out = []
     lines = text.split("\n")
-    pending = {"props": [], "unwind": None, "stubs": [], "tier": "quick"}
+    def fresh():
+        return {"props": [], "unwind": None, "stubs": [], "tier": "quick", "meta": {}}
+    pending = fresh()
     cur = None
     for ln in lines:
         m = re.match(r"\s*//@\s*(\w+)\s*(.*)$", ln)
@@ -51,6 +54,8 @@ def parse_harness_file(unit, text):
                 pending["stubs"].append(tuple(v.split()))
             elif k == "tier":
                 pending["tier"] = v
+            else:
+                pending["meta"][k] = v
             continue
         m = HARNESS_RE.match(ln)
         if m:
@@ -59,7 +64,8 @@ def parse_harness_file(unit, text):
             cur.unwind = pending["unwind"]
             cur.stubs = pending["stubs"]
             cur.tier = pending["tier"]
-            pending = {"props": [], "unwind": None, "stubs": [], "tier": "quick"}
+            cur.meta = pending["meta"]
+            pending = fresh()
             out.append(cur)
             continue
         if cur is not None:
